@@ -212,4 +212,7 @@ pub fn run(rc: &mut RunCtx) {
     for l in ["full_contains_master", "width_not_minimal", "two_or_more_partial_writes", "deprecated_unknown_call"] {
         rc.require_label("presentations", l, 20_000);
     }
+    if !rc.quick() {
+        rc.run_fuzz(Some(STAGES[0]), 320);
+    }
 }
